@@ -29,8 +29,10 @@ class verb(Command):
     def invoke(self, tex):
         """ Parse for matching delimiters """
         self.ownerDocument.context.push(self)
-        self.parse(tex)
+        # The category codes must be switched before looking for the `*',
+        # otherwise the delimiter is tokenized with its normal category
         self.ownerDocument.context.setVerbatimCatcodes()
+        self.parse(tex)
         # See what the delimiter is
         for endpattern in tex:
             self.delimiter = endpattern
